@@ -32,9 +32,22 @@ Inductive seek_from := SStart (k : N) | SCurrent (d : Z) | SEnd (d : Z).
 Inductive op := Read (n : N) | Seek (s : seek_from).
 Inductive outcome := Bytes (l : list N) | Pos (p : N).
 
+(* the first n elements / all but the first n elements, by recursion on the list: a count that
+   comes from a case (a window bound, a seek argument) is never turned into a unary number *)
+Fixpoint takeN {X} (l : list X) (n : N) : list X :=
+  match l with
+  | [] => []
+  | x :: r => if n =? 0 then [] else x :: takeN r (N.pred n)
+  end.
+Fixpoint dropN {X} (l : list X) (n : N) : list X :=
+  match l with
+  | [] => []
+  | x :: r => if n =? 0 then l else dropN r (N.pred n)
+  end.
+
 (* File::read at position pos into a buffer of n bytes (regular file: no short reads) *)
 Definition file_read (file : list N) (pos n : N) : list N :=
-  firstn (N.to_nat n) (skipn (N.to_nat pos) file).
+  takeN (dropN file pos) n.
 
 (* impl Read for FileView *)
 Definition view_read (file : list N) (v : view) (n : N) : res (list N * view) :=
@@ -95,7 +108,7 @@ Definition run_view (file : list N) (a b : N) (ops : list op) : list (res outcom
 
 (* the byte range [a,b) of a file as a file of its own *)
 Definition range (file : list N) (a b : N) : list N :=
-  firstn (N.to_nat (b - a)) (skipn (N.to_nat a) file).
+  takeN (dropN file a) (b - a).
 
 (* What a BufReader (or read_to_end) does with a reader: read into a buffer of [bufsize] bytes
    until a read returns nothing; all bytes delivered, in order. *)
@@ -114,7 +127,7 @@ Fixpoint read_all (fuel : nat) (file : list N) (v : view) (bufsize : N) : res (l
 Definition clampZ (lo hi x : Z) : Z := Z.max lo (Z.min x hi).
 Definition cursor_step (r : list N) (pos : N) (o : op) : outcome * N :=
   match o with
-  | Read n => let got := firstn (N.to_nat n) (skipn (N.to_nat pos) r) in (Bytes got, pos + Nlen got)
+  | Read n => let got := takeN (dropN r pos) n in (Bytes got, pos + Nlen got)
   | Seek (SStart k) => let p := N.min k (Nlen r) in (Pos p, p)
   | Seek (SCurrent d) => let p := Z.to_N (clampZ 0 (Z.of_N (Nlen r)) (Z.of_N pos + d)) in (Pos p, p)
   | Seek (SEnd d) => let p := Z.to_N (clampZ 0 (Z.of_N (Nlen r)) (Z.of_N (Nlen r) + Z.min d 0)) in (Pos p, p)
